@@ -420,7 +420,9 @@ class Ref:
 def pool_full():
     ops = []
     ops += [("set_filter", "u", 10, 2, 0), ("set_filter", ":v", 11, 0, 0),
-            ("set_filter", "u", 11, 10, 0)]
+            ("set_filter", "u", 11, 10, 0),
+            # names are case-sensitive: 'U' is not 'u', 'Int' not 'int'
+            ("set_filter", "U", 10, 0, 0), ("set_filter", "Int", 11, 2, 0)]
     for h in (0, 1):
         for name in ("add_before", "pop_before", "add_after", "pop_after"):
             ops.append((name, h, 0))
@@ -529,7 +531,8 @@ def hostile_op(rng):
     choice = rng.randrange(15)
     if choice == 0:
         return ("set_filter", rng.choice(["", ":", ":x", ":hex", "word",
-                                          "u", "::"]),
+                                          "u", "::", "U", "Word", ":HEX",
+                                          "Int"]),
                 rng.choice((10, 11)), rng.choice((0, 2, 10)), 0)
     if choice == 1:
         return (rng.choice(("add_before", "pop_before", "add_after",
